@@ -1,0 +1,29 @@
+//go:build verif
+
+package agent
+
+import (
+	"time"
+
+	"github.com/ErdemOzgen/blackdagger/internal/dag/scheduler"
+)
+
+// VerifHook is a gate: it is called outside of any lock and may block the
+// calling goroutine. It is installed by the verification harness only.
+var VerifHook func(point string, requestID string)
+
+func verifPoint(point string, id string) {
+	if h := VerifHook; h != nil {
+		h(point, id)
+	}
+}
+
+// VerifSetWaitForRunning overrides the delay of the "running" status write.
+func VerifSetWaitForRunning(d time.Duration) { waitForRunning = d }
+
+// VerifScheduler exposes the step scheduler and the graph of a set-up agent.
+func (a *Agent) VerifScheduler() (*scheduler.Scheduler, *scheduler.ExecutionGraph) {
+	a.lock.RLock()
+	defer a.lock.RUnlock()
+	return a.scheduler, a.graph
+}
